@@ -92,6 +92,11 @@ CHECKS = {
          "Every leaf template alone and inside each of 16 contexts after its declarations, statement sequences and (thorough) programs with one injected semantic fault are analysed under: the 7 uniform layouts and every layout deviating from the default in <= 1 gap (thorough <= 2 gaps for short statements) of the statements after the prelude with each of 6 separator flavours (all gaps for the first program); 4 fixed injective renamings of all user identifiers (ASCII, leading underscore, Unicode, keyword-prefixed) plus rotations, reversal and every adjacent swap of the identifiers among themselves; every split at a top-level statement boundary; and twice unchanged. Graph equality (PartialEq), symbol table equality up to the renaming, equal diagnostic kinds, prefix property for statements / symbols / diagnostics, and full equality including positions for the repeated run.",
          "Layouts beyond the deviation bound and renamings beyond the listed families are not covered. Programs not analysed (rejected or panicking) are skipped and counted.",
          "DESIGN.md section 7, C17"),
+ "C18": ("exploration",
+         "exhaustive enumeration of file-system arrangements x search lists x resolution modes x entry points x main programs against a reference resolver and the analysis of the textually inlined program",
+         "Real directory trees are built under /verif/.work: every assignment of the include files to subsets of 2 (thorough 3) search directories with directory-specific contents (so the directory picked is observable in the graph), file b in 5 flavours (own symbol, uses a's symbol, includes a, syntax fault, lexical fault), every search list that is a permutation of a subset of the directories, given explicitly (with QASM3_PATH set to the reverse order, which must be ignored), through QASM3_PATH only, or not at all, both entry points (string and file), and 16 main programs (include first / between declarations / used afterwards / name clash / two files in both orders / twice / below global scope in if and def / missing / with stdgates / missing in the middle / absolute path / nested / invalid escape / no path). Oracles: graph and symbols equal those of the inlined text, diagnostics equal as multiset plus exactly the predicted FileNotFound / IncludeNotInGlobalScope ones, the list tagged with each resolved canonical path holds the diagnostics of that file's own text, faults in the main text or in a file that is actually read gate analysis, no panic.",
+         "Include cycles are not generated (outside the statement). The environment variable is set and cleared around each configuration inside single-threaded worker processes.",
+         "DESIGN.md section 7, C18"),
  "C19": ("model_checking",
          "explicit-state exploration of all operation histories on the real SymbolTable, lock-step comparison with a reference stack of maps",
          "All histories of length <= 6 (thorough: <= 8, 4.8e7) over the nine operations of the statement, plus a second alphabet (lookup-or-bind, gate and hardware-qubit bindings) and all short histories from 11 systematic non-initial states, are executed on the real SymbolTable (cloned at branch points); after every operation the result and the full observation vector (look-ups, scope size, depth, every id ever issued, gate and hardware-qubit listings) are compared with the reference model. Reports reference states, transitions and traces executed; every trace runs on the implementation.",
